@@ -27,18 +27,19 @@ impl PhoneticMethod {
     /// Creates a new `PhoneticMethod` struct.
     pub(crate) fn new(config: &Config) -> Self {
         // Load candidate selections file.
-        let selections = if let Ok(file) = std::fs::read(config.get_user_phonetic_selection_data())
-        {
-            serde_json::from_slice(&file).unwrap()
-        } else {
-            HashMap::with_hasher(RandomState::new())
-        };
+        // A file which can't be parsed (it may have been truncated by an interrupted
+        // save) is treated like a missing one.
+        let selections = std::fs::read(config.get_user_phonetic_selection_data())
+            .ok()
+            .and_then(|file| serde_json::from_slice(&file).ok())
+            .unwrap_or_else(|| HashMap::with_hasher(RandomState::new()));
 
         // Load user's auto correct file.
         let (modified, autocorrect) = {
             if let Ok(mut file) = File::open(config.get_user_phonetic_autocorrect()) {
                 let modified = file.metadata().unwrap().modified().unwrap();
-                let autocorrect = serde_json::from_slice(&read(&mut file)).unwrap();
+                // Treat an unparsable file like a missing one.
+                let autocorrect = serde_json::from_slice(&read(&mut file)).unwrap_or_default();
                 (modified, autocorrect)
             } else {
                 (
@@ -137,11 +138,12 @@ impl Method for PhoneticMethod {
                     .to_string(),
                 suggestion,
             );
-            write(
+            // If the file can't be written (missing or read only directory), the
+            // selection is only lost for the next sessions. Never abort for it.
+            let _ = write(
                 config.get_user_phonetic_selection_data(),
                 serde_json::to_string(&self.selections).unwrap(),
-            )
-            .unwrap();
+            );
         }
 
         // Reset to defaults
@@ -154,7 +156,7 @@ impl Method for PhoneticMethod {
             // Update the auto correct entries if only the file was modified in the meantime.
             if modified > self.modified {
                 self.suggestion.user_autocorrect =
-                    serde_json::from_slice(&read(&mut file)).unwrap();
+                    serde_json::from_slice(&read(&mut file)).unwrap_or_default();
                 // The cached suggestions contain the old auto correct entries.
                 self.suggestion.cache.clear();
                 self.modified = modified;
